@@ -89,7 +89,16 @@ def main():
     for p in [pid] + extra:
         rcc, oc = sh("VERIF_REPO=%s timeout 5400 ./check %s --tier %s" % (wt, p, tier), cwd=ROOT, timeout=6000)
         lines = [l for l in oc.splitlines() if l.startswith("VIOLATION") or l.startswith("  signature") or l.startswith(p + " ") or "MACHINERY" in l]
-        out["checks"][p] = {"exit": rcc, "tier": tier, "lines": lines[:12]}
+        out["checks"][p] = {"exit": rcc, "tier": tier, "lines": lines[:12], "seed": int(os.environ.get("VERIF_SEED", "0") or 0)}
+        if rcc == 0 and p == pid and "VERIF_SEED" not in os.environ:
+            # the quick tier is a seeded sample: a miss at the default seed is re-tried at seeds 1 and 2
+            for sd in (1, 2):
+                rc2, oc2 = sh("VERIF_SEED=%d VERIF_REPO=%s timeout 5400 ./check %s --tier %s" % (sd, wt, p, tier), cwd=ROOT, timeout=6000)
+                out["checks"][p].setdefault("other_seeds", {})[str(sd)] = rc2
+                if rc2 == 1:
+                    l2 = [l for l in oc2.splitlines() if l.startswith("VIOLATION") or l.startswith("  signature") or l.startswith(p + " ")]
+                    out["checks"][p].update({"exit": 1, "lines": l2[:12], "seed": sd})
+                    break
     out["caught_by"] = [p for p, r in out["checks"].items() if r["exit"] == 1]
     dst = os.path.join(ROOT, "seeded", name)
     os.makedirs(dst, exist_ok=True)
